@@ -22,7 +22,7 @@ pub fn spec() -> Spec {
         case_cap_s: |t| t.pick(120, 600),
         rule: "every labeled tuple of involutions (dim 1-3) up to the size bound is one case per family: 'sym' = commuting tuples x all branching vectors in all symbol representations, queried at every (i,j,d) including out-of-range and |i-j|>1; 'set' = arbitrary tuples in the plain-set representations with every index subset x every duplicate-free seed sequence; 'partial' = every partial set of size <= 2; 'gen' = outputs of DSets/DSyms/covers in the representation they come in. Non-trivial = size >= 2 and connected.",
         assumptions: &["symbols are built through the crate's public constructors (build_set, build_sym_using_vs, From conversions); every op/v of the built object is compared with the reference tables before anything else"],
-        bounds: |t| json!({"sym": {"dims": [1,2,3], "max_size": t.pick(3, 4), "V": [1,2,3], "V_at_size_4": [1,2]},
+        bounds: |t| json!({"sym": {"dims": [1,2,3], "max_size": t.pick(3, 4), "V": [1,2,3], "V_at_size_4": [1,2], "huge_degrees": "sizes <= 2 [3], one orbit with v = 2^b-1, 2^b, 2^b+1 for b in 7,8,15,16,31,32,53,59"},
                             "set": {"dims": [1,2,3], "max_size": 4, "max_size_dim2_thorough": t.pick(4, 5)},
                             "partial": {"max_size": 2}, "gen": {"dsets_max_size": {"1": 6, "2": t.pick(5, 6), "3": t.pick(4, 5)}, "covers_max_sheets": 3}}),
     }
@@ -561,6 +561,26 @@ fn run(ctx: &mut Ctx) {
                 for_each_branching(ops, vals, usize::MAX, &mut |s| {
                     if ctx.take() {
                         check_symbol_case(ctx, s);
+                    }
+                });
+            });
+        }
+    }
+    // family sym, huge degrees: one orbit at a time carries a value at a power-of-two boundary of the integer
+    // widths (every representation must report the same v and m = r * v)
+    let mut huge: Vec<usize> = vec![1];
+    for b in [7u32, 8, 15, 16, 31, 32, 53, 59] {
+        for x in [(1usize << b) - 1, 1usize << b, (1usize << b) + 1] {
+            huge.push(x);
+        }
+    }
+    for dim in 1..=3usize {
+        for n in 1..=tier.pick(2, 3) {
+            for_each_labeled_set(dim, n, true, &mut |ops| {
+                for_each_branching(ops, &huge, 1, &mut |s| {
+                    if s.v.iter().any(|r| r.iter().any(|&x| x > 1)) && ctx.take() {
+                        check_symbol_case(ctx, s);
+                        ctx.add("huge_degree_symbols", 1);
                     }
                 });
             });
